@@ -3,6 +3,7 @@
 pub mod c01;
 pub mod c02;
 pub mod c15;
+pub mod c16;
 pub mod chopper;
 pub mod endpoints;
 pub mod nodes;
